@@ -220,6 +220,13 @@ func genC15(r *sim.Rng, tier string, idx int) *GCase {
 		at := r.Intn(len(v.Files) + 1)
 		v.Files = append(v.Files[:at], append([]string{"-"}, v.Files[at:]...)...)
 	}
+	if r.Chance(1, 150) {
+		// a long list of operands that cannot be processed
+		miss := pickName(dash) + ".missing"
+		for n := sim.Pick(r, []int{255, 256, 257, 512}); len(v.Files) < n; {
+			v.Files = append(v.Files, miss)
+		}
+	}
 	c.Runs = append(c.Runs, v)
 	// follow-up runs: the inverse operation on what the first run produced
 	st := stateOf(buildWorld(c))
